@@ -40,7 +40,7 @@ LAYERS = {
     'l5': {
         'n': {'quick': 120, 'thorough': 600},
         'shards': {'quick': 1, 'thorough': 8},
-        'extra': {'quick': ['-conc', '25'], 'thorough': ['-conc', '120']},
+        'extra': {'quick': ['-conc', '40'], 'thorough': ['-conc', '160']},
         'crash_props': ['C18'],
     },
     'zoo': {
